@@ -346,6 +346,13 @@ def run_case(w, prog, db, dbname, dialect, src=None, want_rq=True, user_names=No
                 o.symptoms.append(("C05", "rq_frame_count", "rq frame %r result %r" % (frame, o.cols)))
             elif any(f is not None and f != a for f, a in zip(frame, act)):
                 o.symptoms.append(("C05", "rq_frame_names", "rq frame %r result %r" % (frame, act)))
+    named_exp_ = [n for n in exp if n is not None]
+    if len(set(named_exp_)) < len(named_exp_) and not has_wild:
+        # root-cause tag for fully known frames: the frame holds two columns of the SAME name (two joined relations
+        # sharing a column name): the family of KF-C05-1.  Column-list symptoms of frames without a repeated name
+        # are never attributed to it
+        excl_classes = ("column_order", "excluded_columns_present", "exclusion_drops_unnamed") if excluded_names(prog) else ()
+        o.symptoms = [(p_, (s_ + "+dup_names") if p_ == "C05" and "+" not in s_ and s_ not in excl_classes else s_, d_) for (p_, s_, d_) in o.symptoms]
     if static:
         # root-cause tag (EXCLUDE dialects): a column that the program excluded by name and that no later step
         # re-introduces is in the result - the lost-exclusion defect (KF-C05-10) is at work, whatever else differs
